@@ -60,6 +60,7 @@ impl Cutoff for SimCutoff {
         sched::yield_point(yk::CUTOFF);
         let k = self.polls.fetch_add(1, Ordering::SeqCst) + 1;
         let stop = match self.plan { CutPlan::Never => false, CutPlan::At(f) => k >= f, CutPlan::Flaky(a, b) => k >= a && k < b };
+        if sched::trace_on() { eprintln!("[cutoff] {:?} poll {} -> {}", sched::current_tid(), k, stop); }
         if stop { self.fired.store(true, Ordering::SeqCst); }
         stop
     }
@@ -206,6 +207,7 @@ impl<F: Fringe> Fringe for CheckedFringe<F> where F::State: Clone + Eq + Debug {
     type State = F::State;
     fn push(&mut self, node: SubProblem<F::State>) {
         self.stats.pushes += 1;
+        if sched::trace_on() { eprintln!("[fringe] {:?} push state={:?} depth={} value={} ub={}", sched::current_tid(), node.state, node.depth, node.value, node.ub); }
         let existing = if self.dedup { self.reference.iter().position(|x| same_sub(x, &node)) } else { None };
         match existing {
             Some(i) => {
@@ -226,6 +228,7 @@ impl<F: Fringe> Fringe for CheckedFringe<F> where F::State: Clone + Eq + Debug {
         self.stats.pops += 1;
         if self.pop_bound > 0 && self.stats.pops > self.pop_bound { panic!("SIM-STEP-BOUND: more than {} fringe pops", self.pop_bound); }
         let got = self.inner.pop();
+        if sched::trace_on() { eprintln!("[fringe] {:?} pop -> {:?}", sched::current_tid(), got.as_ref().map(|n| (n.state.as_ref().clone(), n.depth, n.value, n.ub))); }
         match &got {
             None => { if !self.reference.is_empty() { let e = format!("pop() returned None but the reference holds {} items", self.reference.len()); self.err(e); } }
             Some(n) => {
@@ -250,6 +253,6 @@ impl<F: Fringe> Fringe for CheckedFringe<F> where F::State: Clone + Eq + Debug {
         self.check_len("pop");
         got
     }
-    fn clear(&mut self) { self.stats.clears += 1; self.reference.clear(); self.inner.clear(); self.check_len("clear"); }
+    fn clear(&mut self) { if sched::trace_on() { eprintln!("[fringe] {:?} clear", sched::current_tid()); } self.stats.clears += 1; self.reference.clear(); self.inner.clear(); self.check_len("clear"); }
     fn len(&self) -> usize { self.inner.len() }
 }
